@@ -75,6 +75,7 @@ type Exec struct {
 	loopHeapStored map[*ssa.Alloc]bool
 	siteNames      map[*ssa.Function]map[token.Pos]string
 	curLoopHead    *ssa.BasicBlock
+	embCodes       map[string]int
 	pdoms          map[*ssa.Function]*pdomInfo
 	noMerge        bool
 	merges         int
@@ -89,7 +90,7 @@ func newExec(prog *ssa.Program, pkg *ssa.Package, tpkg *packages.Package, specs 
 		oblCount: map[string]int{}, abstracted: map[string]int{}, inlined: map[string]int{},
 		maxSteps: 20000, maxPaths: 20000, strLits: map[string]string{}, tagIDs: map[string]int{},
 		loopInfo: map[*ssa.Function]*loopInfo{}, debug: os.Getenv("GOWP_DEBUG") != "",
-		usedContracts: map[string]bool{}, pdoms: map[*ssa.Function]*pdomInfo{}, noMerge: os.Getenv("GOWP_NOMERGE") != "",
+		embCodes: map[string]int{}, usedContracts: map[string]bool{}, pdoms: map[*ssa.Function]*pdomInfo{}, noMerge: os.Getenv("GOWP_NOMERGE") != "",
 	}
 }
 
